@@ -14,6 +14,18 @@ CLAIMED = {
    design="§6 C03",
    note="Trusted: the reference ledger (BTreeMap over independently recomputed utxo keys), the SimIo in-memory disk, the vendored ahash with fixed seeds. Genesis period >> tree height (window edge belongs to C13).",
    technique="deterministic simulation: seeded block-tree/delivery-order search + reference-ledger replay oracle"),
+ "C04": dict(
+   level="exploration",
+   text="Seeded search over (shared prefix, main chain 0..4/10, candidate chain longer than main, position and kind (11 header/fee-tx edits) of the invalid candidate block, prune depth, disk read fault on the n-th block-file read). Full observable snapshot (tip, spendable set, index, stored blocks+flags, wallet) compared before/after every call that does not add the block; wind/unwind loop under a step budget proportional to the two segments; node must extend its chain afterwards.",
+   design="§6 C04",
+   note="Trusted: snapshot code, tamper catalogue (blocks re-signed so only validation can notice), SimIo read-fault injection. Transaction-level invalidity is judged by C01. Block cache type (Pruned/Full) not compared.",
+   technique="deterministic simulation: seeded fork-shape x invalid-position search with disk read-fault injection, before/after snapshot oracle, step-budget hook"),
+ "C05": dict(
+   level="exploration",
+   text="Seeded search over block trees (two forks, lighter-but-longer, equal-length, invalid block at any position with honest children on top, ticket-sparse interior, random) x delivery orders; reference fork-choice monitor after each delivery: height monotone; tip moves only to strictly longer, >= burn fee, valid-by-construction, ticket-dense chains; qualifying chains must be adopted; orphan deliveries must not disturb tip/index.",
+   design="§6 C05",
+   note="Trusted: validity by construction (honest builder output valid; edited block and descendants invalid), burn fee read from headers of honest blocks, universe builder (stores blocks without fork choice).",
+   technique="deterministic simulation: seeded block-tree/delivery-order search + reference fork-choice monitor"),
 }
 
 PLANNED_REASON = "check not built yet (planned in DESIGN.md §6; will be claimed once its scenario passes the determinism self-test)"
